@@ -11,7 +11,7 @@ import (
 	"encoding/json"
 	"fmt"
 	"os"
-	"runtime/debug"
+	"runtime/pprof"
 	"sort"
 	"strings"
 	"time"
@@ -83,21 +83,42 @@ func configsA(quick bool) []*CfgA {
 	defer func() { checkSlack(out) }()
 	// thorough: full menus, more lags / latencies / phases, longer horizons
 	full := []string{"A", "Ahi-1", "Ahi", "Adn", "Adn+1", "UNAV", "UNSUP", "MISS"}
-	for i, t := range [][3]int{{10, 1, 0}, {30, 1, 3}, {10, 1, -2}, {30, 1, 1}, {30, 2, 1}, {10, 2, 3}, {30, 3, 0}, {10, 3, 3}, {30, 3, -2}} {
-		cd, per, lag, i := int64(t[0]), t[1], t[2], i
-		add(fmt.Sprintf("T-i60-cd%d-p%d-lag%d", cd, per, lag), func(c *CfgA) {
+	small := []string{"A", "Ahi-1", "Ahi", "UNAV", "MISS"}
+	type tc struct {
+		cd       int64
+		per, lag int
+		lat      []int
+		menu     []string
+		h        int
+	}
+	for i, t := range []tc{
+		{10, 1, 0, []int{0, 1, 2, 4}, full, 150},
+		{30, 1, 3, []int{0, 1, 2, 4}, full, 150},
+		{10, 1, -2, []int{0, 2, 4}, small, 150},
+		{30, 2, 1, []int{0, 1, 2, 4}, full, 190},
+		{10, 2, 3, []int{0, 2, 4}, full, 150},
+		{30, 3, 0, []int{0, 1, 2, 4}, full, 190},
+		{10, 3, 3, []int{0, 2, 4}, full, 150},
+		{30, 3, -2, []int{0, 1, 3}, full, 190}, // keeps missing + latency + period - lag within the 10 s left for UNAVAILABLE answers
+	} {
+		t, i := t, i
+		add(fmt.Sprintf("T-i60-cd%d-p%d-lag%d", t.cd, t.per, t.lag), func(c *CfgA) {
 			c.Val = i % 3
-			c.Cooldown, c.Period, c.Lag = cd, per, lag
-			c.Phase = i % per
+			c.Cooldown, c.Period, c.Lag = t.cd, t.per, t.lag
+			c.Phase = i % t.per
 			c.PollFirst = i%2 == 1
-			c.Lat = []int{0, 1, 2, 4}
-			if per == 3 && lag < 0 {
-				c.Lat = []int{0, 1, 3} // keeps max-missing + latency + block period - lag within the 10 s the daemon leaves for UNAVAILABLE answers
-			}
-			c.Menu = full
-			c.Horizon = 190
+			c.Lat = t.lat
+			c.Menu = t.menu
+			c.Horizon = t.h
 		})
 	}
+	add("T-dev3000-i60-cd30-p3-lag2", func(c *CfgA) {
+		c.DevBP = 3000
+		c.Val = 1
+		c.Lat = []int{0, 2, 4}
+		c.Menu = full
+		c.Horizon = 190
+	})
 	add("T-i120-cd30-p3-lag2-full", func(c *CfgA) {
 		c.Val, c.Vote = 1, []sigSpec{{"A", 1}}
 		c.Lat = []int{0, 2, 4}
@@ -107,8 +128,8 @@ func configsA(quick bool) []*CfgA {
 	add("T-two-signals-p3", func(c *CfgA) {
 		c.Vote = []sigSpec{{"A", 2}, {"B", 1}}
 		c.Lat = []int{0, 3}
-		c.Menu = []string{"A", "Ahi", "UNAV", "MISS"}
-		c.Menu2 = []string{"A", "Ahi", "UNSUP"}
+		c.Menu = []string{"A", "Ahi", "UNAV"}
+		c.Menu2 = []string{"A", "Ahi"}
 		c.Horizon = 130
 	})
 	return out
@@ -290,8 +311,11 @@ func execB(r *engine.Run, quick bool, deadline time.Time) {
 	scs, bounds := scenariosB(quick)
 	only := os.Getenv("VERIF_C20_ONLY")
 	getEnvB()
-	old := debug.SetGCPercent(-1) // see the collection gate in partb.go
-	defer debug.SetGCPercent(old)
+	if pf := os.Getenv("VERIF_C20_PROF"); pf != "" {
+		f, _ := os.Create(pf)
+		_ = pprof.StartCPUProfile(f)
+		defer pprof.StopCPUProfile()
+	}
 	for i, sc := range scs {
 		if only != "" && !strings.Contains(sc.Name, only) {
 			continue
@@ -367,8 +391,8 @@ func init() {
 			if os.Getenv("VERIF_C20_ONLY") != "" {
 				r.Required = nil
 			}
-			dlA := r.Deadline(8*time.Minute, 25*time.Minute)
-			dlB := r.Deadline(16*time.Minute, 50*time.Minute)
+			dlA := r.Deadline(8*time.Minute, 30*time.Minute)
+			dlB := r.Deadline(16*time.Minute, 55*time.Minute)
 			if part != "b" {
 				execA(r, quick, dlA)
 			}
